@@ -45,4 +45,174 @@ def chain_statement : Prop :=
 /-- the big-bang bound used by the code is the documented -2^59 -/
 def constants_statement : Prop := Gen.bigBang = -576460752303423488
 
+/-! ### proofs (helper lemmas in `Cctz/Proofs/TbSearch.lean`, `TbCivilOob.lean`, `Transitions.lean`) -/
+
+theorem nextTransition_spec : nextTransition_statement := by
+  intro z t wf
+  obtain ⟨hv, hf⟩ := Tb.nextTransition_char wf t
+  obtain ⟨k1, k2, k3⟩ := Tb.nextIdx_spec wf t
+  refine ⟨hf, ?_⟩
+  rw [hv]
+  by_cases hk : Tb.nextIdx z t = z.transitions.size
+  · rw [if_pos hk]
+    intro i hi
+    by_cases h : t < (trn z i).unixTime
+    · have := k2 i hi h
+      have := hi.1
+      omega
+    · omega
+  · rw [if_neg hk]
+    have hk' : Tb.nextIdx z t < z.transitions.size := by omega
+    obtain ⟨r1, r2⟩ := k3 hk'
+    refine ⟨Tb.nextIdx z t, r1, r2, rfl, ?_⟩
+    intro j hj ht
+    exact Tb.time_mono wf (k2 j hj ht) hj.1
+
+theorem prevTransition_spec : prevTransition_statement := by
+  intro z t wf
+  obtain ⟨hv, hf⟩ := Tb.prevTransition_char wf t
+  obtain ⟨k0, k1, k2, k3⟩ := Tb.prevIdx_spec wf t
+  refine ⟨hf, ?_⟩
+  rw [hv]
+  by_cases hk : Tb.prevIdx z t = Tb.beginIdx z
+  · rw [if_pos hk]
+    intro i hi
+    by_cases h : (trn z i).unixTime < t
+    · have := k2 i hi h
+      have := ((Tb.realChange_iff i).1 hi).2.1
+      omega
+    · omega
+  · rw [if_neg hk]
+    have hk' : Tb.beginIdx z < Tb.prevIdx z t := by omega
+    obtain ⟨r1, r2⟩ := k3 hk'
+    refine ⟨Tb.prevIdx z t - 1, r1, r2, rfl, ?_⟩
+    intro j hj ht
+    have := k2 j hj ht
+    exact Tb.time_mono wf (by omega) r1.1
+
+theorem ends : ends_statement := by
+  intro z wf hr
+  constructor
+  · have h := (nextTransition_spec z i64max wf).2
+    cases hv : (nextTransition z i64max).val with
+    | none => rfl
+    | some r =>
+      rw [hv] at h
+      obtain ⟨i, hi, ht, _⟩ := h
+      have := (hr i hi.1).2
+      omega
+  · have h := (prevTransition_spec z i64min wf).2
+    cases hv : (prevTransition z i64min).val with
+    | none => rfl
+    | some r =>
+      rw [hv] at h
+      obtain ⟨i, hi, ht, _⟩ := h
+      have := (hr i hi.1).1
+      omega
+
+theorem no_change : no_change_statement := by
+  intro z t wf hno
+  constructor
+  · have h := (nextTransition_spec z t wf).2
+    cases hv : (nextTransition z t).val with
+    | none => rfl
+    | some r =>
+      rw [hv] at h
+      obtain ⟨i, hi, _⟩ := h
+      exact absurd hi (hno i)
+  · have h := (prevTransition_spec z t wf).2
+    cases hv : (prevTransition z t).val with
+    | none => rfl
+    | some r =>
+      rw [hv] at h
+      obtain ⟨i, hi, _⟩ := h
+      exact absurd hi (hno i)
+
+theorem chain : chain_statement := by
+  intro z t r wf hnext
+  have h := (nextTransition_spec z t wf).2
+  rw [hnext] at h
+  obtain ⟨i, hi, _, hr, _⟩ := h
+  refine ⟨i, hi, hr, ?_⟩
+  have hp := (prevTransition_spec z ((trn z i).unixTime + 1) wf).2
+  cases hv : (prevTransition z ((trn z i).unixTime + 1)).val with
+  | none =>
+    rw [hv] at hp
+    have := hp i hi
+    omega
+  | some r' =>
+    rw [hv] at hp
+    obtain ⟨i', hi', ht', hr', hmax⟩ := hp
+    have h1 := hmax i hi (by omega)
+    have heq : i = i' := by
+      rcases Nat.lt_trichotomy i i' with hlt | heq | hgt
+      · have := wf.timeSorted i i' hlt hi'.1; omega
+      · exact heq
+      · have := wf.timeSorted i' i hgt hi.1; omega
+    subst heq
+    rw [hr', hr]
+
+theorem constants : constants_statement := rfl
+
+/-! the hypotheses are satisfiable on a non-trivial table, and the conclusions say what is meant:
+a big-bang sentinel, a change at 10, a no-op entry at 20 (same type again), a change at 30 -/
+def exZone : Zone :=
+  { transitions := #[
+      { unixTime := -576460752303423488, typeIndex := 1 },
+      { unixTime := 10, typeIndex := 0, civilSec := ⟨1970, 1, 1, 0, 0, 10⟩, prevCivilSec := ⟨1970, 1, 1, 1, 0, 9⟩ },
+      { unixTime := 20, typeIndex := 0, civilSec := ⟨1970, 1, 1, 0, 0, 20⟩, prevCivilSec := ⟨1970, 1, 1, 0, 0, 19⟩ },
+      { unixTime := 30, typeIndex := 1, civilSec := ⟨1970, 1, 1, 1, 0, 30⟩, prevCivilSec := ⟨1970, 1, 1, 0, 0, 29⟩ }],
+    types := #[{ utcOffset := 0, isDst := false, abbrIndex := 0 }, { utcOffset := 3600, isDst := true, abbrIndex := 4 }],
+    defaultType := 0, abbreviations := [85, 84, 67, 0, 68, 83, 84, 0] }
+
+theorem exZone_wf : TableWF exZone where
+  nonempty := by decide
+  timeSorted := by
+    intro i j hij hj
+    have hj' : j < 4 := hj
+    have : (i = 0 ∧ j = 1) ∨ (i = 0 ∧ j = 2) ∨ (i = 0 ∧ j = 3) ∨ (i = 1 ∧ j = 2) ∨ (i = 1 ∧ j = 3) ∨
+        (i = 2 ∧ j = 3) := by omega
+    rcases this with ⟨rfl, rfl⟩ | ⟨rfl, rfl⟩ | ⟨rfl, rfl⟩ | ⟨rfl, rfl⟩ | ⟨rfl, rfl⟩ | ⟨rfl, rfl⟩ <;> decide
+  typeIdx := by
+    intro i hi
+    have hi' : i < 4 := hi
+    have : i = 0 ∨ i = 1 ∨ i = 2 ∨ i = 3 := by omega
+    rcases this with rfl | rfl | rfl | rfl <;> decide
+  defaultIdx := by decide
+
+example : RealChange exZone 1 ∧ RealChange exZone 3 ∧ ¬ RealChange exZone 0 ∧ ¬ RealChange exZone 2 := by
+  unfold RealChange sameType prevType; decide
+example : (nextTransition exZone 0).val = some (reportOf exZone 1) := by decide
+example : (nextTransition exZone 10).val = some (reportOf exZone 3) := by decide
+example : (nextTransition exZone 30).val = none := by decide
+example : (prevTransition exZone 30).val = some (reportOf exZone 1) := by decide
+example : (prevTransition exZone 31).val = some (reportOf exZone 3) := by decide
+example : (prevTransition exZone 10).val = none := by decide
+example : ∀ i, i < exZone.transitions.size → inI64 (trn exZone i).unixTime := by
+  intro i hi
+  have hi' : i < 4 := hi
+  have : i = 0 ∨ i = 1 ∨ i = 2 ∨ i = 3 := by omega
+  rcases this with rfl | rfl | rfl | rfl <;> decide
+
+/-- a table consisting of the sentinel only has no real change -/
+def exFixed : Zone :=
+  { transitions := #[{ unixTime := -576460752303423488, typeIndex := 0 }],
+    types := #[{ utcOffset := 0, isDst := false, abbrIndex := 0 }],
+    defaultType := 0, abbreviations := [85, 84, 67, 0] }
+
+example : TableWF exFixed ∧ ∀ i, ¬ RealChange exFixed i := by
+  refine ⟨⟨by decide, ?_, ?_, by decide⟩, ?_⟩
+  · intro i j hij hj
+    have hj' : j < 1 := hj
+    omega
+  · intro i hi
+    have hi' : i < 1 := hi
+    have : i = 0 := by omega
+    subst this; decide
+  · intro i hi
+    have hi' : i < 1 := hi.1
+    have : i = 0 := by omega
+    subst this
+    exact hi.2.1 ⟨rfl, by decide⟩
+
 end Cctz.C11
